@@ -281,10 +281,11 @@ func (m *monC01) afterProvider(c *Chain, req *abci.RequestFinalizeBlock, res *ab
 			if vid == 0 {
 				want = m.confirmAt[cid]
 				w.Case("C12", "resolve:id0")
-			} else if at, ok := m.producedAt[vid]; ok {
+			} else if at, ok := m.producedAt[vid]; ok && at != req.Height {
 				want = at + 1
 				w.Case("C12", "resolve:id>0")
 			} else {
+				// (also when this block is the epoch block that produces the id: its EndBlock ran after the transaction)
 				// the id of the update that was still being collected while this block's transactions ran (produced by this block's
 				// EndBlock at the earliest): the previous block's EndBlock mapped it to this height
 				want = req.Height
